@@ -363,7 +363,8 @@ def check_add_data(ctx, repo):
             apps.append((access_path(s.value.func.value), access_path(s.value.args[0]) if s.value.args else None))
     want = [(ps[0] + ".x_data", ps[1]), (ps[0] + ".y_data", ps[2])]
     ok = sorted(apps) == sorted(want) and len(stmts_of(fn)) == 2
-    ctx.check(ok, "R6", "SurrogateModel.add_data", where(mod, fn), "appends found: %r (expected x -> x_data and y -> y_data, once each, unconditionally)" % (apps,))
+    ctx.check3(True if ok else (False if apps else None), "R6", "SurrogateModel.add_data", where(mod, fn), "x appended to x_data and y to y_data, once each, unconditionally",
+               "appends found: %r (expected x -> x_data and y -> y_data, once each, unconditionally)" % (apps,), "add_data shape not recognised")
 
 
 def run(ctx):
